@@ -212,9 +212,70 @@ def run(ck):
         flow.equivalent(final[0][2], ('atom', ('truth', 'allow_dist')))[0]
     ck.ob('PROV-modes', mod.loc(mb), ok, 'the system-wide distance pass runs exactly when distance mode is on, with the collected block non-edges and the fudge factor',
           key='PROV-modes|distance')
+    # every distance pass uses the requested fudge factor (the fallback pass per residue too), down to MakeBonds.fudge
+    ok = bool(dcalls) and all(kwarg(d[0], 'fudge') is not None and u(kwarg(d[0], 'fudge')) == 'fudge' or
+                              (len(d[0].args) >= 4 and u(d[0].args[3]) == 'fudge') for d in dcalls)
+    ck.ob('PROV-fudge', mod.loc(mb), ok and 'fudge' in [a.arg for a in mb.args.args] and not assignments_to(mb, 'fudge'),
+          'every call of _bonds_from_distance in make_bonds ({}) passes the fudge factor the caller asked for'.format(len(dcalls)), key='PROV-fudge|calls')
+    # the block non-bonds of every residue are accumulated into one set (never rebound inside the residue loop)
+    ne_defs = [n for n in walk_local(mb) if isinstance(n, (ast.Assign, ast.AugAssign)) and any(u(t) == 'non_edges' for t in (n.targets if isinstance(n, ast.Assign) else [n.target]))]
+    in_loop = [n for n in ne_defs if any(n is x for x in ast.walk(rl))]
+    upd = [c for c in ast.walk(rl) if isinstance(c, ast.Call) and call_attr(c) in ('update', '__ior__') and u(c.func.value) == 'non_edges'
+           and c.args and call_name(c.args[0]) == '_bonds_from_names']
+    aug = [n for n in in_loop if isinstance(n, ast.AugAssign) and isinstance(n.op, ast.BitOr) and call_name(n.value) == '_bonds_from_names']
+    ok = len(ne_defs) - len(aug) == 1 and not [n for n in in_loop if n not in aug] and len(upd) + len(aug) == 1
+    ck.ob('PROV-non-edges', mod.loc(mb), ok, 'the reference non-bonds of every residue are accumulated (`non_edges.update(_bonds_from_names(...))`); the set is created once '
+          'before the residue loop and never rebound inside it', key='PROV-non-edges|accumulate')
     ncalls = calls_with_env(mb, lambda c: call_name(c) == '_bonds_from_names')
     ok = len(ncalls) == 1 and any(isinstance(s, ast.If) and u(s.test) == 'not allow_name' and isinstance(s.body[0], ast.Continue) for s in rl.body)
     ck.ob('PROV-modes', mod.loc(mb), ok, 'name-based bonds are attempted per residue exactly when name mode is on', key='PROV-modes|names')
+
+    # ------------------------------------------------------------ BND: candidate search radius covers every pair threshold
+    sd = [c for c in walk_local(bd) if isinstance(c, ast.Call) and call_attr(c) in ('sparse_distance_matrix', 'query_pairs', 'query_ball_tree', 'query_ball_point')]
+    okr = False
+    detail = 'no KD-tree radius query found'
+    if len(sd) == 1:
+        rad = sd[0].args[-1] if sd[0].args else kwarg(sd[0], 'max_distance') or kwarg(sd[0], 'r')
+        # straight-line symbolic value of the radius: interpret the assignments to the names it reads, in order
+        reads = {n.id for n in ast.walk(rad) if isinstance(n, ast.Name)} if rad is not None else set()
+        steps = []
+        for st in bd.body:
+            tgt = None
+            if isinstance(st, ast.Assign) and len(st.targets) == 1 and isinstance(st.targets[0], ast.Name):
+                tgt = st.targets[0].id
+            elif isinstance(st, ast.AugAssign) and isinstance(st.target, ast.Name):
+                tgt = st.target.id
+            elif isinstance(st, ast.If):
+                for sub in st.body + st.orelse:
+                    if isinstance(sub, ast.Assign) and isinstance(sub.targets[0], ast.Name) and sub.targets[0].id in reads and call_name(sub.value) == 'max':
+                        steps.append(('max', sub.targets[0].id))
+                continue
+            if tgt in reads:
+                steps.append((st, tgt))
+        okr = rad is not None
+        detail = ''
+        for maxr in (0.12, 0.216):
+            for f in (0.5, 0.8, 1.0, 1.2, 2.0):
+                env = {'fudge': f}
+                try:
+                    for st, tgt in steps:
+                        if st == 'max':
+                            env[tgt] = maxr
+                        elif isinstance(st, ast.Assign):
+                            env[tgt] = maxr if call_name(st.value) == 'max' else arith(st.value, env)
+                        else:
+                            env[tgt] = arith(ast.BinOp(left=ast.Name(id=tgt), op=st.op, right=st.value), env)
+                    got = arith(rad, env)
+                except (ValueError, KeyError) as err:
+                    okr, detail = False, 'radius expression not arithmetic over (max radius, fudge): {}'.format(err)
+                    break
+                if got < maxr * f - 1e-12:
+                    okr, detail = False, 'radius {:.4f} < largest pair threshold {:.4f} at max radius {}, fudge {}'.format(got, maxr * f, maxr, f)
+                    break
+            if not okr:
+                break
+    ck.ob('BND-search-radius', mod.loc(bd), okr, 'the KD-tree candidate radius is at least the largest pair threshold (max radius x fudge) for every fudge factor, '
+          'so no pair the criterion accepts is missed' + (' -- ' + detail if detail else ''), key='BND-search-radius')
 
     # ------------------------------------------------------------ name-based bonds
     bn = mod.func('_bonds_from_names')
